@@ -437,6 +437,13 @@ type optCall struct {
 // returns the list of constructor calls, or ok=false when the slice is not a
 // literal list of constructor calls (e.g. passed through from a parameter).
 func (s *optSummary) variadicOptions(v ssa.Value) ([]optCall, bool) {
+	return s.variadicOptionsR(v, nil)
+}
+
+// variadicOptionsR is variadicOptions with a resolver for slot values that
+// depend on the path (a phi of "nil Option" and an option constructor call):
+// a nil slot is an option that is not given (the canonical apply loop skips nil).
+func (s *optSummary) variadicOptionsR(v ssa.Value, resolve func(ssa.Value) ssa.Value) ([]optCall, bool) {
 	if an.IsNilConst(v) {
 		return nil, true
 	}
@@ -457,6 +464,7 @@ func (s *optSummary) variadicOptions(v ssa.Value) ([]optCall, bool) {
 	}
 	out := make([]optCall, at.Len())
 	filled := make([]bool, at.Len())
+	skipped := map[int64]bool{}
 	for _, r := range *al.Referrers() {
 		ia, ok := r.(*ssa.IndexAddr)
 		if !ok {
@@ -477,7 +485,16 @@ func (s *optSummary) variadicOptions(v ssa.Value) ([]optCall, bool) {
 			if !ok {
 				return nil, false
 			}
-			call, ok := st.Val.(*ssa.Call)
+			val := st.Val
+			if resolve != nil {
+				val = resolve(val)
+			}
+			if resolve != nil && an.IsNilConst(val) {
+				skipped[k] = true
+				filled[k] = true
+				continue
+			}
+			call, ok := val.(*ssa.Call)
 			if !ok {
 				return nil, false
 			}
@@ -495,5 +512,47 @@ func (s *optSummary) variadicOptions(v ssa.Value) ([]optCall, bool) {
 			return nil, false
 		}
 	}
-	return out, true
+	var res []optCall
+	for i, oc := range out {
+		if !skipped[int64(i)] {
+			res = append(res, oc)
+		}
+	}
+	return res, true
+}
+
+// applyLoopSkipsNil: every applyOpts of the module calls an option only when it
+// is not nil (so a nil Option in an option list is simply not applied).
+func (s *optSummary) applyLoopSkipsNil() bool {
+	found := false
+	for _, g := range s.Getters {
+		if g == nil || g.Fn == nil {
+			continue
+		}
+		for _, ci := range an.Calls(g.Fn) {
+			ap := ci.Common().StaticCallee()
+			if ap == nil || ap.Name() != "applyOpts" || !an.InModule(ap) {
+				continue
+			}
+			found = true
+			ok := false
+			for _, ic := range an.Calls(ap) {
+				cc := ic.Common()
+				if cc.StaticCallee() != nil || cc.IsInvoke() {
+					continue
+				}
+				if _, isB := cc.Value.(*ssa.Builtin); isB {
+					continue
+				}
+				// the dynamic call of the option: guarded by `o != nil`
+				if nilFact(ic.Block(), false, func(x ssa.Value) bool { return x == cc.Value }) {
+					ok = true
+				}
+			}
+			if !ok {
+				return false
+			}
+		}
+	}
+	return found
 }
